@@ -198,7 +198,10 @@ def Poisson.sample (d : Poisson α) (s : List α) : Option (Nat × Poisson α ×
   else
     match d.normal.sample s with
     | none => none
-    | some (x, n', s') => some (castU32 (x + (0.5 : α)), { d with normal := n' }, s')
+    | some (x, n', s') =>
+      -- `rounded = sample_normal_(rng) + 0.5; return rounded > 0 ? result_type(rounded) : 0`
+      let rounded := x + (0.5 : α)
+      some (if Num.gt rounded (0 : α) then castU32 rounded else 0, { d with normal := n' }, s')
 
 def Poisson.sampleN : Nat → Poisson α → List α → Option (List Nat × Poisson α × List α)
   | 0, d, s => some ([], d, s)
